@@ -65,6 +65,7 @@ inductive Op
   | add (pk : Nat) (r : Row)
   | set (pk s : Nat) (v : Int)
   | setR (pk s : Nat) (r : Nat)     -- change the attribute the shard chooser looks at
+  | mergeDet (pk s : Nat) (v : Int) -- expunge the instance (pk, s), modify it, session.merge() it back
   | del (pk s : Nat)
   | flush
   | query (f : Filt) (sh : Option (List Nat))
@@ -189,6 +190,17 @@ def step (c : Cfg) (st : St) : Op → St × Out
       else ({ st with objs := fun k t => if k = pk ∧ t = s then some { o with row := { o.row with region := r }, dirty := true }
                                          else st.objs k t }, .done)
     | none => (st, .skip)
+  | .mergeDet pk s v =>
+    -- Session._merge: the detached object's key is (class, pk, token s); nothing under that
+    -- key in the identity map → Session.get(cls, pk, identity_token = s) → the row of shard s
+    -- is loaded (never another shard's instance of the same primary key), the detached
+    -- object's attributes are copied onto it
+    match st.objs pk s, st.shards s pk with
+    | some o, some _ =>
+      if o.del then (st, .skip)
+      else ({ st with objs := fun k t => if k = pk ∧ t = s then some { o with row := { o.row with val := v }, dirty := true }
+                                         else st.objs k t }, .done)
+    | _, _ => (st, .skip)
   | .del pk s =>
     match st.objs pk s with
     | some o =>
@@ -236,7 +248,7 @@ def outs (c : Cfg) (st : St) : List Op → List Out
 
 def opOk (c : Cfg) : Op → Bool
   | .add pk _ => pk < c.n
-  | .set pk s _ | .del pk s | .setR pk s _ => pk < c.n && s < c.nshards
+  | .set pk s _ | .del pk s | .setR pk s _ | .mergeDet pk s _ => pk < c.n && s < c.nshards
   | .flush => true
   | .query _ sh => (match sh with
                     | some l => l.all (· < c.nshards)
